@@ -223,7 +223,7 @@ impl Scenario for TxSim {
                         }
                         if let Some(v) = v6 {
                             let (s, d) = (v.site.clone(), v.detail.clone());
-                            if target == "C13" {
+                            if target == "C13" && v.clause != "C06.wrote_beyond_reported_length" {
                                 report!(Violation::new("C13", "C13.encoded_undecodably", s, d));
                             } else {
                                 report!(v);
